@@ -1,0 +1,83 @@
+//! Read-only observation hooks for external verification tooling.
+//!
+//! Compiled only with the cargo feature `verif-hooks`; never part of the default build.
+#![allow(missing_docs)]
+
+use crate::dictionary::connector::{Connector, ConnectorCost, ConnectorWrapper};
+use crate::dictionary::Dictionary;
+use crate::tokenizer::worker::Worker;
+
+/// Plain copy of a lattice node.
+#[derive(Clone, Debug, PartialEq, Eq)]
+pub struct VNode {
+    pub word_id: u32,
+    pub lex_type: u8,
+    pub start_node: usize,
+    pub start_word: usize,
+    pub left_id: u16,
+    pub right_id: u16,
+    pub min_idx: u16,
+    pub min_cost: i32,
+}
+
+fn vnode(n: &crate::tokenizer::lattice::Node) -> VNode {
+    VNode {
+        word_id: n.word_id,
+        lex_type: n.lex_type as u8,
+        start_node: n.start_node,
+        start_word: n.start_word,
+        left_id: n.left_id,
+        right_id: n.right_id,
+        min_idx: n.min_idx,
+        min_cost: n.min_cost,
+    }
+}
+
+/// Dumps the lattice of the last tokenization: nodes per end boundary `0..=len_char`, and EOS.
+pub fn lattice_dump(worker: &Worker) -> (Vec<Vec<VNode>>, Option<VNode>) {
+    let (ends, eos, len_char) = worker.lattice.verif_parts();
+    let upto = (len_char + 1).min(ends.len());
+    (
+        ends[..upto]
+            .iter()
+            .map(|v| v.iter().map(vnode).collect())
+            .collect(),
+        eos.map(vnode),
+    )
+}
+
+/// Number of vectors currently held by the lattice buffer.
+pub fn lattice_buffer_len(worker: &Worker) -> usize {
+    worker.lattice.verif_parts().0.len()
+}
+
+pub fn num_left(dict: &Dictionary) -> usize {
+    dict.connector().num_left()
+}
+
+pub fn num_right(dict: &Dictionary) -> usize {
+    dict.connector().num_right()
+}
+
+/// `connector.cost(right_id, left_id)` of the dictionary's connector.
+pub fn conn_cost(dict: &Dictionary, right_id: u16, left_id: u16) -> i32 {
+    match dict.connector() {
+        ConnectorWrapper::Matrix(c) => c.cost(right_id, left_id),
+        ConnectorWrapper::Raw(c) => c.cost(right_id, left_id),
+        ConnectorWrapper::Dual(c) => c.cost(right_id, left_id),
+    }
+}
+
+/// 0 = matrix, 1 = raw, 2 = dual.
+pub fn connector_kind(dict: &Dictionary) -> u8 {
+    match dict.connector() {
+        ConnectorWrapper::Matrix(_) => 0,
+        ConnectorWrapper::Raw(_) => 1,
+        ConnectorWrapper::Dual(_) => 2,
+    }
+}
+
+/// Raw counts of the connection-id counter (left, right), if initialised.
+pub fn connid_counts(worker: &Worker) -> Option<(Vec<usize>, Vec<usize>)> {
+    worker.counter.as_ref().map(|c| c.verif_counts())
+}
